@@ -122,3 +122,73 @@ def cwd_pair(ctx):
                           % (v, st.lineno, norm(bad)[:60], bad.lineno, v)))
     obs.append(Ob('SA-PAIR.cwd', 'saved working directories examined', True, '', '%d' % n))
     return obs
+
+
+@rule('SA-TERM.range')
+@props('C15')
+def term_range(ctx):
+    """While an image is opened, a counting loop that reads nothing from the image in its body (it only fills a set or a
+    list) runs a number of times that is bounded by what was actually read - `len(<bytes>)` - and not by a length field
+    taken from the image: a 32-bit field in a 50 KB file otherwise buys millions of iterations and hundreds of megabytes
+    (with a block size of 1, billions), and the MemoryError that ends it is not a documented exception.  For every
+    `for ... in range(start, stop)` of this kind in the functions reachable from open(): every term of `stop - start` is a
+    constant or is computed from `len(...)`."""
+    from .. import expand as ex
+    obs = []
+    n = 0
+    roots = [ctx.func('pycdlib.PyCdlib._open_fp')]
+    reach = ctx.reachable_from(roots)
+    for q in sorted(reach):
+        fi = ctx.m.functions.get(q)
+        if fi is None or fi.module != 'pycdlib':
+            continue
+        for loop in ctx.own_nodes(fi):
+            if not (isinstance(loop, ast.For) and isinstance(loop.iter, ast.Call) and isinstance(loop.iter.func, ast.Name) and loop.iter.func.id == 'range' and
+                    1 <= len(loop.iter.args) <= 2):
+                continue
+            consumes = False
+            for x in ast.walk(ast.Module(body=loop.body, type_ignores=[])):
+                if isinstance(x, ast.Subscript) and isinstance(x.slice, ast.Slice):
+                    consumes = True
+                if isinstance(x, ast.Call) and isinstance(x.func, ast.Attribute) and x.func.attr in ('parse', 'read', 'unpack', 'unpack_from', 'seek'):
+                    consumes = True
+            if consumes:
+                continue
+            n += 1
+            args = loop.iter.args
+            start = args[0] if len(args) == 2 else ast.Constant(value=0)
+            stop = args[-1]
+
+            def atoms(e, sign, acc):
+                if isinstance(e, ast.BinOp) and isinstance(e.op, ast.Add):
+                    atoms(e.left, sign, acc)
+                    atoms(e.right, sign, acc)
+                elif isinstance(e, ast.BinOp) and isinstance(e.op, ast.Sub):
+                    atoms(e.left, sign, acc)
+                    atoms(e.right, -sign, acc)
+                else:
+                    k = norm(e)
+                    acc[k] = acc.get(k, 0) + sign
+                    acc.setdefault('#' + k, e)
+            acc = {}
+            atoms(stop, 1, acc)
+            atoms(start, -1, acc)
+            bad = []
+            for k, c in acc.items():
+                if k.startswith('#') or c == 0:
+                    continue
+                e = ex.expand(ctx, fi, acc['#' + k], loop, only='pure')
+                if isinstance(e, ast.Constant):
+                    continue
+                names = [y for y in ast.walk(e) if isinstance(y, (ast.Name, ast.Attribute)) and not (isinstance(y, ast.Name) and y.id in ('utils', 'self', 'len'))]
+                lens = [y for y in ast.walk(e) if isinstance(y, ast.Call) and isinstance(y.func, ast.Name) and y.func.id == 'len']
+                inside_len = set(id(z) for l in lens for z in ast.walk(l))
+                free = [y for y in names if id(y) not in inside_len and not norm(y).endswith('logical_block_size') and not norm(y).endswith('ceiling_div')]
+                if free or not lens:
+                    bad.append(norm(e))
+            obs.append(Ob('SA-TERM.range', '%s|for %s in %s' % (fi.qual, norm(loop.target), norm(loop.iter)[:80]), not bad, ctx.loc(fi, loop),
+                          '' if not bad else 'the loop reads nothing from the image in its body, and the number of its iterations is `%s`, which comes from a field of the image '
+                          'and not from the length of what was read: a small hostile image makes open() spin and allocate without bound before any of the checks in the '
+                          'record loop can notice that the data is short' % ', '.join(bad)))
+    obs.append(Ob('SA-TERM.range', 'counting loops of open() that consume no data examined', True, '', '%d' % n))
+    return obs
